@@ -201,7 +201,14 @@ def main_check(prop, module, argv):
         cases = module.cases_from_replay(rp) if hasattr(module, "cases_from_replay") else []
     else:
         cases = module.corpus() + module.generate(rng, tier)
-    res = module.run_and_compare(cases, tier)
+    try:
+        res = module.run_and_compare(cases, tier)
+    except RuntimeError as e:
+        # the harness (or the model driver) died while running the cases against the current tree: the correspondence
+        # cannot be evaluated, so the property is not shown; the cases it died on are named in the message
+        path = write_replay(prop, "the correspondence run aborted on /repo's working tree", {"run_error": str(e)[-3000:], "seed": seed})
+        print("VIOLATION property=%s replay=%s no-failing-input-found" % (prop, path))
+        return 1
     disagreements = res["disagreements"]
     stats = res["stats"]
 
